@@ -18,6 +18,8 @@ struct Run {
     tape: Vec<u8>,
     schema_text: String,
     schema_ext: String,
+    /// name of the schema file inside the case directory (every extension the library supports)
+    schema_file: String,
     document: String,
     /// relative path of the query file inside the case directory
     query_rel: String,
@@ -131,8 +133,12 @@ fn gen_run(tape: &[u8], stats: &mut GenStats, with_failure_clause: bool) -> Opti
     if let Some(o) = &out_dir {
         flag(&mut args, "-o", "--output-directory", Some(o.clone()));
     }
-    let schema_file = format!("schema.{}", b.case.schema_ext);
-    flag(&mut args, "-s", "--schema-path", Some(schema_file));
+    let schema_file = if b.case.schema_ext == "json" {
+        (*t.pick(&["schema.json", "schema.json", "introspection.result.json"])).to_string()
+    } else {
+        (*t.pick(&["schema.graphql", "schema.graphql", "schema.graphqls", "schema.gql", "api.schema.graphql", "sub/schema.graphqls"])).to_string()
+    };
+    flag(&mut args, "-s", "--schema-path", Some(schema_file.clone()));
     args.push(query_rel.clone());
     let enums: Vec<String> = b.world.schema.enums.iter().map(|e| e.name.clone()).collect();
     if !enums.is_empty() && t.chance(30) {
@@ -146,6 +152,14 @@ fn gen_run(tape: &[u8], stats: &mut GenStats, with_failure_clause: bool) -> Opti
     }
     let mut document = b.case.document.clone();
     let mut invalid_rule = None;
+    if !with_failure_clause && opts.operation_name.is_none() && t.chance(6) {
+        // a document of fragments only (a shared fragments file): the library yields no items,
+        // the file is the header alone
+        let only = crate::world::query::Document { defs: b.world.doc.defs.iter().filter(|d| matches!(d, crate::world::query::Definition::Frag(_))).cloned().collect() };
+        if !only.defs.is_empty() {
+            document = crate::world::query::render_document(&only, &b.world.schema, &crate::world::query::QueryStyle { trivia: None });
+        }
+    }
     if with_failure_clause {
         // one invalidating edit from the C06 catalogue (only rules the generator is known to reject)
         let edits = super::c06::invalid_documents(&b.world.schema, &b.world.doc);
@@ -164,7 +178,7 @@ fn gen_run(tape: &[u8], stats: &mut GenStats, with_failure_clause: bool) -> Opti
         1 => Some("// old generated file\n".to_string()),
         _ => Some("// old generated file, longer than the new one\n".repeat(6000)),
     };
-    Some(Run { tape: tape.to_vec(), schema_text: b.case.schema_text.clone(), schema_ext: b.case.schema_ext.clone(), document, query_rel, out_dir, no_formatting, opts, args, invalid_rule, preexisting_target, n_flags })
+    Some(Run { tape: tape.to_vec(), schema_text: b.case.schema_text.clone(), schema_ext: b.case.schema_ext.clone(), schema_file, document, query_rel, out_dir, no_formatting, opts, args, invalid_rule, preexisting_target, n_flags })
 }
 
 fn expected_target(r: &Run) -> String {
@@ -182,7 +196,8 @@ fn execute(dir: &Path, r: &Run) -> Result<(), (Option<&'static str>, String)> {
     let qpath = dir.join(&r.query_rel);
     std::fs::create_dir_all(qpath.parent().unwrap()).unwrap();
     std::fs::write(&qpath, &r.document).unwrap();
-    let spath = dir.join(format!("schema.{}", r.schema_ext));
+    let spath = dir.join(&r.schema_file);
+    std::fs::create_dir_all(spath.parent().unwrap()).unwrap();
     std::fs::write(&spath, &r.schema_text).unwrap();
     if let Some(o) = &r.out_dir {
         std::fs::create_dir_all(dir.join(o)).unwrap();
@@ -241,7 +256,7 @@ fn execute(dir: &Path, r: &Run) -> Result<(), (Option<&'static str>, String)> {
 }
 
 fn replay_value(r: &Run, observed: &str) -> Value {
-    json!({"engine": "e3", "tape_hex": crate::tape::hex(&r.tape), "schema": r.schema_text, "schema_ext": r.schema_ext, "document": r.document, "query_rel": r.query_rel, "out_dir": r.out_dir, "no_formatting": r.no_formatting, "opts": r.opts, "args": r.args, "invalid_rule": r.invalid_rule, "preexisting_target": r.preexisting_target, "observed": observed})
+    json!({"engine": "e3", "tape_hex": crate::tape::hex(&r.tape), "schema": r.schema_text, "schema_ext": r.schema_ext, "schema_file": r.schema_file, "document": r.document, "query_rel": r.query_rel, "out_dir": r.out_dir, "no_formatting": r.no_formatting, "opts": r.opts, "args": r.args, "invalid_rule": r.invalid_rule, "preexisting_target": r.preexisting_target, "observed": observed})
 }
 
 fn from_replay(v: &Value) -> Option<Run> {
@@ -249,6 +264,7 @@ fn from_replay(v: &Value) -> Option<Run> {
         tape: crate::tape::unhex(v["tape_hex"].as_str().unwrap_or("")),
         schema_text: v["schema"].as_str()?.to_string(),
         schema_ext: v["schema_ext"].as_str()?.to_string(),
+        schema_file: v["schema_file"].as_str().map(|s| s.to_string()).unwrap_or_else(|| format!("schema.{}", v["schema_ext"].as_str().unwrap_or("graphql"))),
         document: v["document"].as_str()?.to_string(),
         query_rel: v["query_rel"].as_str()?.to_string(),
         out_dir: v["out_dir"].as_str().map(|s| s.to_string()),
@@ -262,7 +278,7 @@ fn from_replay(v: &Value) -> Option<Run> {
 }
 
 pub fn run(report: &mut Report, replay: Option<&Value>) {
-    report.rule = "supported (schema, query) pairs x flag combinations (short / long spellings; variables / response derives, the three deprecation strategies, module visibility pub / private, custom scalars module, other-variant, external enums, selected operation) x output placement (beside the query file; -o dir; stems with extra dots, no extension, spaces, sub-directories) x --no-formatting on/off x pre-existing target file; plus invalidating edits of the C06 catalogue for the failure clause. Oracle: exit 0 and the only changed file is <stem>.rs at the expected place with content `#![allow(clippy::all, warnings)]\\n` + the tokens of the library called in-process with options from the harness's own flag table (formatted runs: the expectation piped through the same rustfmt); on a generation error: exit != 0 and the directory tree (incl. a pre-existing target) is unchanged. Non-trivial: >= 3 flags, a non-default placement, or the failure clause; distinct by (inputs, argument vector).".into();
+    report.rule = "supported (schema, query) pairs x flag combinations (short / long spellings; variables / response derives, the three deprecation strategies, module visibility pub / private, custom scalars module, other-variant, external enums, selected operation) x output placement (beside the query file; -o dir; stems with extra dots, no extension, spaces, sub-directories) x --no-formatting on/off x pre-existing target file x schema file name (.graphql / .graphqls / .gql / .json, extra dots, sub-directory) x documents of fragments only (header-only file); plus invalidating edits of the C06 catalogue for the failure clause. Oracle: exit 0 and the only changed file is <stem>.rs at the expected place with content `#![allow(clippy::all, warnings)]\\n` + the tokens of the library called in-process with options from the harness's own flag table (formatted runs: the expectation piped through the same rustfmt); on a generation error: exit != 0 and the directory tree (incl. a pre-existing target) is unchanged. Non-trivial: >= 3 flags, a non-default placement, or the failure clause; distinct by (inputs, argument vector).".into();
     report.assumptions = vec!["rustfmt as installed is deterministic".into(), "documented --module-visibility values are `pub` and `private`".into()];
     if let Err(e) = crate::e3::ensure_cli_built() {
         report.infra(e);
@@ -330,6 +346,12 @@ pub fn run(report: &mut Report, replay: Option<&Value>) {
         }
         if r.preexisting_target.is_some() {
             report.feature("preexisting_target");
+        }
+        if !r.document.contains("query") && !r.document.contains("mutation") && !r.document.contains("subscription") && !r.document.trim_start().starts_with('{') {
+            report.feature("fragments_only_document");
+        }
+        if !matches!(r.schema_file.as_str(), "schema.graphql" | "schema.json") {
+            report.feature("schema_file_other_extension_or_place");
         }
         if i < 3 {
             report.sample(json!({"args": r.args, "query_file": r.query_rel, "expected_target": expected_target(r), "invalid_rule": r.invalid_rule, "result": format!("{:?}", res)}));
